@@ -1767,5 +1767,8 @@ mod tests {
 
 #[cfg(all(test, lumina_verif))]
 mod verif_native {
-    include!(concat!(env!("LUMINA_VERIF_DIR"), "/native/node/block_ranges.rs"));
+    include!(concat!(
+        env!("LUMINA_VERIF_DIR"),
+        "/native/node/block_ranges.rs"
+    ));
 }
